@@ -59,3 +59,152 @@ void h_uint_write(void) {
     VF_CALL_V(oasis_write_unsigned_integer, out, value);
 }
 #endif
+
+/* ------------------------------------------------------------------ signed integers and deltas */
+uint8_t IN_skip, IN_bits;
+int64_t IN_x, IN_y;
+int64_t OUT_x, OUT_y;
+
+#ifdef VF_ENTRY_h_int_read
+void h_int_read(void) {
+    OasisStream s; OasisStream *in = &s;
+    c19_env(); c19_in_stream(in);
+    uint8_t skip_bits; VF_IN(u8, IN_skip); skip_bits = IN_skip;
+    int64_t res; VF_IN(i64, IN_x); res = IN_x;
+    int64_t *result = &res;
+    VF_CALL_R(uint8_t, r, oasis_read_int_internal, in, skip_bits, result);
+    (void)r;
+}
+#endif
+#ifdef VF_ENTRY_h_integer_read
+void h_integer_read(void) {
+    OasisStream s; OasisStream *in = &s;
+    c19_env(); c19_in_stream(in);
+    VF_CALL_R(int64_t, r, oasis_read_integer, in);
+    (void)r;
+}
+#endif
+#define DELTA_READ_HARNESS(NAME, FN)                                  \
+    void NAME(void) {                                                 \
+        OasisStream s; OasisStream *in = &s;                          \
+        c19_env(); c19_in_stream(in);                                 \
+        VF_IN(i64, IN_x); VF_IN(i64, IN_y);                           \
+        OUT_x = IN_x; OUT_y = IN_y;                                   \
+        int64_t *x = &OUT_x; int64_t *y = &OUT_y;                     \
+        VF_CALL_V(FN, in, x, y);                                      \
+    }
+#ifdef VF_ENTRY_h_2delta_read
+DELTA_READ_HARNESS(h_2delta_read, oasis_read_2delta)
+#endif
+#ifdef VF_ENTRY_h_3delta_read
+DELTA_READ_HARNESS(h_3delta_read, oasis_read_3delta)
+#endif
+#ifdef VF_ENTRY_h_gdelta_read
+DELTA_READ_HARNESS(h_gdelta_read, oasis_read_gdelta)
+#endif
+
+#ifdef VF_ENTRY_h_int_write
+void h_int_write(void) {
+    OasisStream s; OasisStream *out = &s;
+    c19_env(); c19_out_stream(out);
+    int64_t value; uint8_t num_bits, bits;
+    VF_IN(i64, IN_x); VF_IN(u8, IN_skip); VF_IN(u8, IN_bits);
+    value = IN_x; num_bits = IN_skip; bits = IN_bits;
+    VF_CALL_V(oasis_write_int_internal, out, value, num_bits, bits);
+}
+#endif
+#ifdef VF_ENTRY_h_integer_write
+void h_integer_write(void) {
+    OasisStream s; OasisStream *out = &s;
+    c19_env(); c19_out_stream(out);
+    int64_t value; VF_IN(i64, IN_x); value = IN_x;
+    VF_CALL_V(oasis_write_integer, out, value);
+}
+#endif
+#define DELTA_WRITE_HARNESS(NAME, FN)                                 \
+    void NAME(void) {                                                 \
+        OasisStream s; OasisStream *out = &s;                         \
+        c19_env(); c19_out_stream(out);                               \
+        int64_t x, y; VF_IN(i64, IN_x); VF_IN(i64, IN_y);             \
+        x = IN_x; y = IN_y;                                           \
+        VF_CALL_V(FN, out, x, y);                                     \
+    }
+#ifdef VF_ENTRY_h_2delta_write
+DELTA_WRITE_HARNESS(h_2delta_write, oasis_write_2delta)
+#endif
+#ifdef VF_ENTRY_h_3delta_write
+DELTA_WRITE_HARNESS(h_3delta_write, oasis_write_3delta)
+#endif
+#ifdef VF_ENTRY_h_gdelta_write
+DELTA_WRITE_HARNESS(h_gdelta_write, oasis_write_gdelta)
+#endif
+
+/* ------------------------------------------------------------------ reals */
+uint8_t IN_type;
+double IN_real;
+#ifdef VF_ENTRY_h_real_read
+void h_real_read(void) {
+    OasisStream s; OasisStream *in = &s;
+    c19_env(); c19_in_stream(in);
+    OasisDataType type; VF_IN(u8, IN_type);
+    VF_ASSUME(IN_type >= VF_TYPE_LO && IN_type <= VF_TYPE_HI);   /* the groups partition 0..255 */
+    type = (OasisDataType)IN_type;
+    VF_CALL_R(double, r, oasis_read_real_by_type, in, type);
+    (void)r;
+}
+#endif
+#ifdef VF_ENTRY_h_real_write
+void h_real_write(void) {
+    OasisStream s; OasisStream *out = &s;
+    c19_env(); c19_out_stream(out);
+    double value; VF_IN(double, IN_real); value = IN_real;
+    VF_CALL_V(oasis_write_real, out, value);
+}
+#endif
+
+/* ------------------------------------------------------------------ stream primitives */
+uint64_t IN_size, IN_count;
+uint8_t IN_buf[32];
+int IN_c;
+#ifdef VF_ENTRY_h_stream_read
+void h_stream_read(void) {
+    OasisStream s; OasisStream *in = &s;
+    c19_env(); c19_in_stream(in);
+    size_t size, count; VF_IN(u64, IN_size); VF_IN(u64, IN_count);
+    size = IN_size; count = IN_count;
+    VF_ASSUME(size >= 1 && size <= 16 && count <= 4096 && size * count <= sizeof(IN_buf));
+    void *buffer = IN_buf;
+    VF_CALL_R(ErrorCode, r, oasis_read, buffer, size, count, in);
+    (void)r;
+}
+#endif
+#ifdef VF_ENTRY_h_stream_peek
+void h_stream_peek(void) {
+    OasisStream s; OasisStream *in = &s;
+    c19_env(); c19_in_stream(in);
+    VF_CALL_R(uint8_t, r, oasis_peek, in);
+    (void)r;
+}
+#endif
+#ifdef VF_ENTRY_h_stream_write
+void h_stream_write(void) {
+    OasisStream s; OasisStream *out = &s;
+    c19_env(); c19_out_stream(out);
+    size_t size, count; VF_IN(u64, IN_size); VF_IN(u64, IN_count);
+    size = IN_size; count = IN_count;
+    VF_IN_ARR(IN_buf);
+    VF_ASSUME(size >= 1 && size <= 16 && count <= 16 && size * count <= sizeof(IN_buf));
+    void *buffer = IN_buf;
+    VF_CALL_R(size_t, r, oasis_write, buffer, size, count, out);
+    (void)r;
+}
+#endif
+#ifdef VF_ENTRY_h_stream_putc
+void h_stream_putc(void) {
+    OasisStream s; OasisStream *out = &s;
+    c19_env(); c19_out_stream(out);
+    int c; VF_IN(int, IN_c); c = IN_c;
+    VF_CALL_R(int, r, oasis_putc, c, out);
+    (void)r;
+}
+#endif
